@@ -90,6 +90,13 @@ def check_lwe_op(chk, v, name, spec):
         for A in a_st:
             lp = A["loops"][-1] if A["loops"] else None
             e = A["lv"][2]
+            if A["guards"] and lp is not None:
+                # a guard that holds for every dimension n >= 1 (if (n > 0) ...) does not restrict the statement
+                from sa import affine
+                facts_n = [sym.sub(P(par, "n"), I(1)), sym.sub(lp["hi"], I(1)) if lp["hi"] != P(par, "n") else sym.sub(P(par, "n"), I(1))]
+                if all(affine.infeasible(facts_n + affine.guard_constraints([sym.unop("!", g_)])) and affine.guard_constraints([sym.unop("!", g_)])
+                       for g_ in A["guards"]):
+                    A = dict(A, guards=[])
             if lp is None or len(A["loops"]) != 1 or A["guards"]:
                 chk.broken("%s: mask statement at line %s is not in a single unguarded loop" % (name, A["line"]))
             sa = sym.idx(P(sample, "a"), e) if sample else None
